@@ -117,32 +117,62 @@ def fam_hdr(seed, tier):
                    rest=rnd.choice([b"", b"\x00\x00", b"\x00"]), decs=rnd.choice(["none", "all"]))
 
 
-@proof("C14/unpack_auth_blocks", functions=[(MOD, "Bec2File.unpack_auth_blocks")], family=fam_hdr, shards=14,
-       thorough_only=True)
-def unpack_hdr(vc):
-    """one TLV with symbolic tag / declared length / available bytes, followed by arbitrary bytes"""
+@proof("C14/unpack_auth_blocks.loop", functions=[(MOD, "Bec2File.unpack_auth_blocks"), (MOD, "BytesReader.read")],
+       family=fam_hdr)
+def unpack_hdr_loop(vc):
+    """MODULAR and unbounded: any header of any length and any number of TLVs.  The three block classes' unpack are
+    replaced by their contract (what the two proofs above establish per class, plus the base class's NotImplementedError):
+    returns (block, None | 16 bytes) or raises FormatError / ValueError / NotImplementedError.  The while-loop carries
+    the contract  0 <= cursor <= len(header),  common_session_key is None or bytes,  variant len(header) - cursor."""
     M = vc.module(MOD)
     E = vc.module("bec2format.error")
-    tag = vc.int("tag", 0, 255)
-    ln = vc.int("ln", 0, 255)
-    vl = vc.int("vl", 0, 300)
-    value = vc.bytes("value", vl)
-    rest = vc.choice("rest", [b"", b"\x00\x00", b"\x00"])
-    decs = vc.choice("decs", ["none", "all"])
-    if vc.symbolic:
-        stub_aes(vc, M)
-        vc.patch(M, "crc8404B", C08.crc_contract(vc))
-        world = EccWorld(vc, M)
-        rcpt = world.keypair("rcpt")
-        vc.allow_symbolic_text_in_diagnostics()
-    else:
+    if not vc.symbolic:
+        tag, ln, value, rest, decs = (vc._get(k) for k in ("tag", "ln", "value", "rest", "decs"))
         import bec2format
         rcpt = bec2format.generate_private_ecc_key()
-    encs = [] if decs == "none" else [M.EccDecryptor(0, rcpt), M.ConfigSecurityCodeEncryptor(b"\x01" * 8),
-                                      M.SoftwareCustKeyEncryptor(b"k" * 16)]
-    data = vc.cat(vc.be(tag, 1), vc.be(ln, 1), value, rest)
-    out = vc.call(M.Bec2File.unpack_auth_blocks, M.BytesReader(data, "x"), encs)
+        encs = [] if decs == "none" else [M.EccDecryptor(0, rcpt), M.ConfigSecurityCodeEncryptor(b"\x01" * 8),
+                                          M.SoftwareCustKeyEncryptor(b"k" * 16)]
+        data = bytes([tag, ln]) + value + rest
+        out = vc.call(M.Bec2File.unpack_auth_blocks, M.BytesReader(data, "x"), encs)
+        vc.prove("raises-only-format-errors", allowed(vc, out, E), repr(out.exc))
+        return
+    from contracts.C01 import setpos
+    from pyvc.abscoll import AbsList
+    n = vc.int("n", 0, 1 << 20)
+    data = vc.bytes("hdr", n)
+    vc.allow_symbolic_text_in_diagnostics()
+    calls = []
+
+    def contract_unpack(value, encs):
+        calls.append(1)
+        o = vc.fresh_int("outcome", 0, 4)
+        if o == 0:
+            raise M.Bec2FileFormatError("by contract")
+        if o == 1:
+            raise ValueError("by contract")
+        if o == 2:
+            raise NotImplementedError()
+        if o == 3:
+            return object(), None
+        return object(), vc.fresh_bytes("sk", 16)
+
+    for c in M.Bec2File.AUTH_BLOCK_CLS_MAP.values():
+        vc.patch(c, "unpack", staticmethod(contract_unpack))
+
+    def hv_key(L):
+        return None if vc.fresh_int("have_key", 0, 1) == 0 else vc.fresh_bytes("common", 16)
+
+    vc.loop(MOD, "Bec2File.unpack_auth_blocks", 0,
+            havoc=dict(raw_rdr=lambda L: setpos(L.raw_rdr, vc.fresh_int("pos", 0, 1 << 20)),
+                       common_session_key=hv_key,
+                       auth_blocks=lambda L: AbsList("authblocks", vc.fresh_int("nblocks", 0, 1 << 20), lambda j: object()),
+                       ext_encryptors="keep", cls="keep"),
+            inv=lambda L: [("cursor-in-range", vc.And(0 <= L.raw_rdr.tell(), L.raw_rdr.tell() <= n))],
+            variant=lambda L: core.toint(n) - core.toint(L.raw_rdr.tell()))
+    out = vc.call(M.Bec2File.unpack_auth_blocks, M.BytesReader(data, "x"), [])
     vc.prove("raises-only-format-errors", allowed(vc, out, E), repr(out.exc))
+    if out.returned:
+        vc.cover("terminated-by-0000")
 
 
 def fam_filter(seed, tier):
